@@ -399,8 +399,36 @@ func c13Codec(tw *traceWriter, c c13Case) {
 		}
 	})
 	line["hasUnmarshal"], line["uerr"], line["proj"], line["re"], line["reerr"] = hasU, errStr(uerr), proj, hx(re), errStr(rerr)
+	// the specification's bytes -> Unmarshal into the value that holds the previous message of this type (a receiver that is used again)
+	var rerr2 error
+	var projReused interface{} = ""
+	reused := false
+	line["panicR"] = catch(func() {
+		prev, ok := c13Used[c.Type]
+		if !ok {
+			y := mk()
+			if u, isU := y.(c13Unmarshaler); isU && u.Unmarshal(append([]byte{}, spec...)) == nil {
+				c13Used[c.Type] = y
+			}
+			return
+		}
+		u := prev.(c13Unmarshaler)
+		reused = true
+		if rerr2 = u.Unmarshal(append([]byte{}, spec...)); rerr2 == nil {
+			projReused = c13ProjAny(c.Type, prev)
+		} else {
+			delete(c13Used, c.Type)
+		}
+	})
+	if line["panicR"] != "" {
+		delete(c13Used, c.Type)
+	}
+	line["reused"], line["rerr2"], line["projReused"] = reused, errStr(rerr2), projReused
 	tw.emit(line)
 }
+
+// c13Used holds, per type, the value the previous message of that type was decoded into
+var c13Used = map[string]interface{}{}
 
 // ---- operations in between: decrypt, then marshal again --------------------------------------------------------------
 
